@@ -13,7 +13,7 @@ import NmVerif.Index.Expand
 import NmVerif.Index.Diagonal
 import NmVerif.Index.SlidingWindow
 import NmVerif.Index.Split
-import NmVerif.Index.Where
+import NmVerif.Driver.C04Gen
 namespace NmVerif.Driver.C04
 open NmVerif NmVerif.Proto NmVerif.Index
 
@@ -166,19 +166,6 @@ def handle : Handler := fun op a =>
       let m ← a.optInt "m"
       pure (fmtGen (eyeGen (← a.nat "n") (m.map Int.toNat) (← a.int "k")))
   | "identity" => orBad do pure (fmtGen (identityGen (← a.nat "n")))
-  | "where" => orBad do
-      let c ← a.nats "shape"
-      let x ← a.nats "shape2"
-      let y ← a.nats "shape3"
-      let cond ← a.ints "cond"
-      match whereView c x y with
-      | none => pure "nothing"
-      | some w =>
-        let data : List Int := (allIdx w.dst).map (fun d =>
-          let cv := cond[computeOffset (bcastIdx c d) (strides c)]?.getD 0
-          if cv ≠ 0 then (computeOffset (bcastIdx x d) (strides x) : Int) + 1000
-          else (computeOffset (bcastIdx y d) (strides y) : Int) + 2000)
-        pure s!"ok shape={fmtNats w.dst} data={fmtInts data}"
   | "compress" => orBad do
       pure (fmtView (compressView (← a.nats "shape") (← a.ints "cond") (← a.optInt "axis")))
   | "resize" => orBad do pure (fmtView (resizeView (← a.nats "shape") (← a.nats "to")))
@@ -191,6 +178,6 @@ def handle : Handler := fun op a =>
         | some _ => a.nats "slist"
         | none => (a.nat "spacing").map (fun x => axes.map (fun _ => x))
       pure (fmtView (expandView s axes sps))
-  | _ => none
+  | _ => C04Gen.handle op a
 
 end NmVerif.Driver.C04
